@@ -63,7 +63,8 @@ CLAIMED["C12"] = dict(
          "test, also when SubmissionFailed is listed in restartHookOn), schema exclusion of Killed/Cancelled, refusal paths of "
          "ComponentState.restart / RepeatingEngine.restart, and final state after a refused restart. With the counting "
          "argument on the loop-free restart function this bounds restarts for every exit-reason sequence and hook outcome."
-         " A relaunch starts from reset per-execution fields; the repeating engine's single restart respects maxRestarts; every caller of _restartComponent gives a final state for every refusal code.",
+         " A relaunch starts from reset per-execution fields; the repeating engine's single restart respects maxRestarts; every caller of _restartComponent gives a final state for every refusal code."
+         " The subject that Engine.__init__ subscribes the kill-before-run handler to is re-created only when the engine is dead; the restart hook's call is enclosed by handlers for Exception and SystemExit; the repeating engine's restart also needs the reason to be listed in restartHookOn.",
     technique="CFG edge-dominance, reaching definitions, value-class product reachability, linear comparison "
               "normalisation, who-may-write",
     design="3/C12")
@@ -77,7 +78,8 @@ CLAIMED["C13"] = dict(
          "path that sees _suicide with lastAction False reaches kill(); feasibility = consistency of repeated tests of "
          "lastAction/_suicide and their copies). The timing quantifier (where the notification lands between polls, NFS "
          "latency) cannot be bounded statically and is not claimed."
-         " The success test of the decision reads the task generated in the same pass and never a None.",
+         " The success test of the decision reads the task generated in the same pass and never a None."
+         " The cutoff of the new-output test is the recorded launch time of the previous execution (or a min including it); 'no retries left' holds for every non-positive counter.",
     technique="CFG edge-dominance and must-pass-through, path-consistent product reachability over stable flags, "
               "reaching definitions of the snapshot, who-may-write",
     design="3/C13")
@@ -185,7 +187,7 @@ CLAIMED["C18"] = dict(
          "passed); copy/link destinations are <working dir>/<basename>; rejections surface as the staging/packaging "
          "error. Decided for every archive and manifest at once; two genuine defects were repaired by fix: commits. The "
          "file-system effect of a concrete archive is not executed."
-         " Members that pass through symbolic links of the archive itself are rejected before extraction; files written after the manifest was applied go into folders created by the deployment or tested to be inside the instance.",
+         " Members that pass through symbolic links of the archive itself are rejected before extraction; files written after the manifest was applied go into folders freshly created by the deployment or have their OWN real path tested to be inside the instance; a content copy is reached only when its destination file is not a link.",
     technique="source-to-sink path-expression analysis (normalisation + containment recognition), CFG dominance, "
               "handler/raise class agreement",
     design="3/C18")
@@ -263,14 +265,17 @@ CLAIMED["C06"] = dict(
     design="3/C06")
 
 CLAIMED["C20"] = dict(
-    text="STRUCTURAL CLAUSES ONLY - the arithmetic of the normalisation (float sums, int(w*1000) truncation: whether given decimals "
-         "are recognised as summing to one) is NOT decided; that needs numeric exploration, another technique family. Decided: "
+    text="STRUCTURAL CLAUSES ONLY - the float arithmetic of the normalisation (the size of the tolerance under which a sum counts as "
+         "one) is NOT decided; that needs numeric exploration, another technique family. Decided: "
          "both normalisation sites replace the given weights whenever one is negative (the pinned tree did not: a genuine "
          "defect, repaired) and replace them only under the sum test or the sign test; the replacement covers every stage, "
          "with integer numerators int(S/n) and S-(n-1)*int(S/n) over one scale constant S used consistently (non-negative, "
          "adding up to S exactly); the per-stage fraction is sum(L)/len(L) over one list of 0/1 indicators; the total is "
          "accumulated only as weight[i] or fraction[i]*weight[i] over the finished / in-transit stage sets, which are selected "
-         "by complementary predicates with the current stage removed from both.",
+         "by complementary predicates with the current stage removed from both and read under one acquisition of the controller's lock; "
+         "the sum test looks at the parsed weights themselves (no per-weight truncation), compares with 1 under a tolerance finer than "
+         "the fallback resolution and sends a nan sum to the replaced side; a malformed weight is handled as missing; the monitor's "
+         "positional weight list is filled in stage order.",
     technique="guard-existence and edge-dominance on the CFG, symbolic shape of the replacement numerators, constant agreement, "
               "sibling cross-check of the two normalisation sites",
     design="3/C20")
